@@ -126,6 +126,7 @@ func switchTable(f *ssa.Function) (table map[int64]int64, def []string, ok bool)
 }
 
 func c06(r *core.Run) {
+	defer c06Extra(r)
 	p := r.P
 	r.Explanation = "Decides on every path: CachedConn.ExecCtx deletes the named keys after a successful exec and before any success return; the cache node's take closure queries the database only when the cache answered exactly the not-found error, returns any other cache error, writes the placeholder on a DB not-found, caches only after a successful query, and runs inside the single-flight barrier under the cache key; TTL formulas (ceil to seconds, jitter factor in [1-d,1+d], d=0.05, +5s index gap); a failed delete schedules a retry, the retry task re-schedules iff the delete failed again and follows the strictly increasing delay chain; cluster methods route by the key they pass on."
 	r.NotDecided = "coherence over read/write histories, 'at most one DB query at a time' as a schedule property, retry timing on the wheel, Redis behaviour."
